@@ -55,6 +55,7 @@ type Top struct {
 	constStrs  []Term
 	closures   map[string]Val
 	nbound     int
+	goCaps     []refComp // reference components handed to the goroutine at the current go statement
 	epochHeaps map[string]Term
 	epochMerge map[int][]epochPart
 	nepoch     int
@@ -256,6 +257,7 @@ type loopInfo struct {
 	// auto range-index facts
 	rangeCell *ssa.Alloc
 	rangeLim  ssa.Value
+	mapRange  bool // the header advances a map iterator (range over a map)
 }
 
 func findLoops(fn *ssa.Function) map[*ssa.BasicBlock]*loopInfo {
@@ -295,6 +297,11 @@ func findLoops(fn *ssa.Function) map[*ssa.BasicBlock]*loopInfo {
 	for i, h := range hs {
 		loops[h].ordinal = i + 1
 		li := loops[h]
+		for _, in := range h.Instrs {
+			if nx, ok := in.(*ssa.Next); ok && !nx.IsString {
+				li.mapRange = true
+			}
+		}
 		if h.Comment == "rangeindex.loop" {
 			// pattern: t = *cell; t2 = t + 1; *cell = t2; c = t2 < lim; if c
 			for _, in := range h.Instrs {
@@ -897,6 +904,8 @@ func (fr *Frame) backEdge(st *State, li *loopInfo, run *loopRun, from *ssa.Basic
 			eqPrefix = And(eqPrefix, Eq(a0, a1))
 		}
 		fr.oblige(st, "decreases", lname, Or(alts...), nil, pos)
+	} else if li.mapRange {
+		fr.top.trusted["range over a map terminates (Go semantics; assumes the body does not keep adding entries)"] = true
 	} else if fr.fc == nil || !fr.fc.NoTerm {
 		fr.oblige(st, "decreases", lname+".missing-variant", False, nil, pos)
 	}
